@@ -82,4 +82,24 @@ def initDersLin (s : Sys) (c : Mem) (X : Vec) : List Rat :=
 def initDersConst (s : Sys) (c : Mem) : List Rat :=
   (List.range s.k).map (fun v => if v < s.nd then 0 else c.dconst v)
 
+/-! ## Cached functions of `transcribe()` and `clear_transcription_cache()`
+
+`transcribe()` builds a CasADi function for a slot only when the slot is empty (`if self.__slot is None`),
+freezing the values that are inlined at that moment (ensemble-constant parameters); otherwise it reuses the
+cached one.  `build d s`: the function transcribe builds for slot `s` from the current data `d`. -/
+
+abbrev Cache (β : Type) := String → Option β
+
+/-- the function transcribe uses for slot `s`: the cached one, else one built from the current data -/
+def useSlot {α β : Type} (build : α → String → β) (d : α) (cache : Cache β) (s : String) : β :=
+  (cache s).getD (build d s)
+
+/-- `clear_transcription_cache()`: the listed slots are set to `None` -/
+def clearSlots {β : Type} (cl : List String) (cache : Cache β) : Cache β :=
+  fun s => if s ∈ cl then none else cache s
+
+/-- what a transcription is made of: the functions of all slots it reads -/
+def transcribeWith {α β : Type} (slots : List String) (build : α → String → β) (d : α) (cache : Cache β) : List β :=
+  slots.map (useSlot build d cache)
+
 end RtcVerif.C01
